@@ -75,6 +75,9 @@ func All() []*Instance {
 		h4([]string{"suggest-SELCT"}, []string{"suggest-FORM", "suggest-SELCT"}),
 		h4([]string{"validate-typo"}, []string{"suggest-SELCT", "parse-bad"}),
 		h4([]string{"newscanner-scansql"}, []string{"newscanner-scansql"}, []string{"suggest-SELCT"}),
+		// the config file cache (RWMutex + atomics; check-then-act load/insert)
+		h4([]string{"config-cached"}, []string{"config-cached"}),
+		h4([]string{"config-cached", "config-cached"}, []string{"config-cached"}),
 	)
 	return l
 }
@@ -122,7 +125,7 @@ func FreeMix(family string) []*Instance {
 	case "H4":
 		return []*Instance{opsInstance("H4", "first-use", true, -1, "",
 			[]string{"newscanner-scansql"}, []string{"newscanner-scan"}, []string{"suggest-SELCT"}, []string{"suggest-FORM"},
-			[]string{"validate-typo"}, []string{"parse-bad"}, []string{"lint"}, []string{"format-arr"})}
+			[]string{"validate-typo"}, []string{"parse-bad"}, []string{"lint"}, []string{"format-arr"}, []string{"config-cached"})}
 	}
 	return nil
 }
